@@ -174,17 +174,22 @@ func unroll(items []FItem, epilogue *ref.AIns) (*ref.AProg, int, bool) {
 
 // checkFor: Compile(p) == Compile(unroll(p)) == meaning(unroll(p)).
 func (c *Ctx) checkFor(items []FItem, epiSrc string, epi *ref.AIns, note string) {
+	c.checkForN(items, epiSrc, epi, note, 90)
+}
+
+func (c *Ctx) checkForN(items []FItem, epiSrc string, epi *ref.AIns, note string, maxIns int) {
 	rep := c.Rep
 	flat, passes, ok := unroll(items, epi)
-	if !ok || passes > 40 {
+	if !ok || (passes > 40 && maxIns <= 90) {
 		rep.Count("c08:generator-skipped")
 		return
 	}
-	if len(flat.Ins) > 90 {
+	if len(flat.Ins) > maxIns {
 		rep.Count("c08:generator-skipped")
 		return
 	}
 	cfg := cfgM(8000, g.ICWS94)
+	cfg.Length = g.Address(maxIns + 10)
 	m, err := ref.Denote(flat, cfg)
 	if err != nil {
 		rep.Count("c08:generator-skipped")
@@ -333,7 +338,17 @@ func (c *Ctx) RunC08(tier string) {
 			c.checkFor(items, "", nil, fmt.Sprintf("nest %v", cs))
 		}
 	}
-	rep.Bound += "; sequences of 1..14 one-line blocks with counts 0..2; nests 6x3x1, 3x3x3, 2x2x2, 6x1x1, 1x3x3"
+	if c.Sh.I == c.Sh.N-1 {
+		// large counts (the counter grows past one and two digits)
+		for _, cnt := range []int{9, 10, 11, 40, 89} {
+			items := []FItem{{Block: true, Label: "blk", Counter: "i", Count: fmt.Sprintf("%d", cnt), Items: []FItem{{Tmpl: 1}, {Tmpl: 2}}}}
+			epi := ref.AIns{Op: "jmp", A: operand("", "blk_1")}
+			c.checkForN(items, "jmp blk\n", &epi, fmt.Sprintf("count %d", cnt), 200)
+		}
+		items := []FItem{{Block: true, Counter: "i", Count: "12", Items: []FItem{{Block: true, Counter: "j", Count: "i", Items: []FItem{{Tmpl: 3}}}}}}
+		c.checkForN(items, "", nil, "12 x i nest", 200)
+	}
+	rep.Bound += "; sequences of 1..14 one-line blocks with counts 0..2; nests 6x3x1, 3x3x3, 2x2x2, 6x1x1, 1x3x3; single blocks with counts 9, 10, 11, 40, 89 and a 12 x i nest"
 	rep.Counters["c08:structure-trees"] += int64(n) / int64(c.Sh.N)
 	rep.Sample(forSource([]FItem{{Block: true, Label: "blk", Counter: "i", Count: "n+1", Items: []FItem{{Tmpl: 2}, {Block: true, Counter: "j", Count: "i", Items: []FItem{{Tmpl: 1}}}}}}, "jmp blk\n"))
 }
